@@ -668,6 +668,8 @@ fn table_cfg<T: FloatT>(ci: usize, cfg: &Value, alpha: &[i64], unit: i64, maxlen
     let mut evs: Vec<Vec<Value>> = (0..=maxlen).map(|l| vec![Value::Null; a.pow(l as u32)]).collect();
     let total = a.pow(maxlen as u32);
     let mut rejected = false;
+    let mut base: Option<Dyn<T>> = None;
+    let mut base_tried = false;
     for full in 0..total {
         // digits of `full`, most significant first
         let mut codes = vec![0usize; maxlen];
@@ -685,17 +687,32 @@ fn table_cfg<T: FloatT>(ci: usize, cfg: &Value, alpha: &[i64], unit: i64, maxlen
             }
         }
         drain_events();
-        let mut slot: Slot<T> = match try_build::<T>(cfg) {
-            Ok(v) => Slot::Live(v),
-            Err(_) => {
-                rejected = true;
-                break;
+        // an optional common prefix is fed before the tree starts (C03: what preceded must not matter).  A long prefix is fed
+        // once and the view cloned from there for every branch - where the view can be cloned; otherwise it is replayed
+        let mut slot: Slot<T> = match base.as_ref().and_then(|b: &Dyn<T>| catch_unwind(AssertUnwindSafe(|| b.0.bclone())).ok().flatten()) {
+            Some(b) => Slot::Live(Dyn(b)),
+            None => {
+                let mut sl: Slot<T> = match try_build::<T>(cfg) {
+                    Ok(v) => Slot::Live(v),
+                    Err(_) => {
+                        rejected = true;
+                        break;
+                    }
+                };
+                for &x in prefix {
+                    g_update(&mut sl, T::from_ratio(x, unit) * scale);
+                }
+                if prefix.len() > 16 && base.is_none() && !base_tried {
+                    base_tried = true;
+                    if let Slot::Live(v) = &sl {
+                        if let Ok(Some(b)) = catch_unwind(AssertUnwindSafe(|| v.0.bclone())) {
+                            base = Some(Dyn(b));
+                        }
+                    }
+                }
+                sl
             }
         };
-        // an optional common prefix is fed before the tree starts (C03: what preceded must not matter)
-        for &x in prefix {
-            g_update(&mut slot, T::from_ratio(x, unit) * scale);
-        }
         let mut idx = 0usize;
         if first_new == 0 {
             obs[0][0] = g_last(&mut slot);
